@@ -9,13 +9,15 @@
   * `inv_change_bumps_generation`, `traits_change_bumps_generation`, `traits_delete_bumps_generation`,
     `aggregates_bump_from_1_19`: on success exactly the addressed provider's generation is old + 1
     (traits: only if the set changes - the code returns early otherwise; aggregates: only from 1.19);
-  * `alloc_write_bumps_providers`, `alloc_write_bumps_consumer`: PUT /allocations/{consumer}.
+  * `alloc_write_bumps_providers`, `alloc_write_bumps_consumer`: PUT /allocations/{consumer};
+    `alloc_post_bumps_providers`, `alloc_post_bumps_consumers`, `reshape_bumps_providers`,
+    `reshape_bumps_consumers`: POST /allocations, POST /reshaper.
 
   Not expressible in this model (reported): "the generation returned by a write equals the one
   subsequently read" (`Resp` carries status and error code only) and "requests that only read" (reads
   are not `Op`s; they do not touch the state by construction).
 -/
-import Placement.Lemmas.GenProv
+import Placement.Lemmas.GenCons
 
 namespace Placement.Props.C10
 open Placement Placement.Hier Placement.Gens
@@ -172,6 +174,28 @@ theorem alloc_write_bumps_providers (cfg : Config) {db : DB R} (hU : Uniq db) (m
 example : Uniq exDb ∧ (step exCfg exDb (.allocPut 39 exPut)).2.ok = true ∧ (11, 0, 4) ∈ exPut.allocs :=
   ⟨exDb_uniq, by decide, by simp [exPut]⟩
 
+/-- The same for every consumer entry of a successful `POST /allocations`. -/
+theorem alloc_post_bumps_providers (cfg : Config) {db : DB R} (hU : Uniq db) (mv : Nat) (cs : List ConsumerReq)
+    (hok : (step cfg db (.allocPost mv cs)).2.ok = true) :
+    ∀ c ∈ cs, ∀ a ∈ c.allocs, ∃ rp, db.rpByUuid a.1 = some rp ∧
+      (step cfg db (.allocPost mv cs)).1.rpByUuid a.1 = some { rp with gen := rp.gen + 1 } :=
+  allocPost_bumps_providers cfg (ids_of_uniq hU) hok
+
+example : Uniq exDb ∧ (step exCfg exDb (.allocPost 39 [exPut, { exPut with uuid := 101, gen := none }])).2.ok = true :=
+  ⟨exDb_uniq, by decide⟩
+
+/-- `POST /reshaper`: every provider named by the allocations has a strictly larger generation
+afterwards (the inventory phases of the same request may raise it further). -/
+theorem reshape_bumps_providers (cfg : Config) {db : DB R} (hU : Uniq db) (mv : Nat) (invs : List (RpInvReq R))
+    (cs : List ConsumerReq) (hok : (step cfg db (.reshape mv invs cs)).2.ok = true) :
+    ∀ c ∈ cs, ∀ a ∈ c.allocs, ∃ rp rp', db.rpByUuid a.1 = some rp ∧
+      (step cfg db (.reshape mv invs cs)).1.rpByUuid a.1 = some rp' ∧ rp'.id = rp.id ∧ rp.gen < rp'.gen :=
+  Placement.Gens.reshape_bumps_providers cfg (ids_of_uniq hU) hok
+
+example : Uniq exDb ∧ (step exCfg exDb (.reshape 39 [⟨11, 5, [exInv]⟩] [exPut])).2.ok = true ∧
+    ((step exCfg exDb (.reshape 39 [⟨11, 5, [exInv]⟩] [exPut])).1.rpByUuid 11).map (·.gen) = some 8 :=
+  ⟨exDb_uniq, by decide, by decide⟩
+
 /-- After a successful `PUT /allocations/{consumer}` with a non-empty body the consumer's generation
 is the old one plus one - a consumer that did not exist counts as 0 (it is created with generation 0
 and incremented), so it ends at 1 - or the consumer record is gone because it holds no allocation. -/
@@ -186,5 +210,32 @@ example : Uniq exDb ∧ (step exCfg exDb (.allocPut 39 exPut)).2.ok = true ∧ e
     ((step exCfg exDb (.allocPut 39 exPut)).1.consByUuid 100).map (·.gen) = some 4 ∧
     ((step exCfg exDb (.allocPut 39 { exPut with uuid := 101, gen := none })).1.consByUuid 101).map (·.gen) = some 1 :=
   ⟨exDb_uniq, by decide, by simp [exPut], by decide, by decide⟩
+
+/-- The same for every consumer entry (with a non-empty body) of a successful `POST /allocations`. -/
+theorem alloc_post_bumps_consumers (cfg : Config) {db : DB R} (hU : Uniq db) (mv : Nat) (cs : List ConsumerReq)
+    (hok : (step cfg db (.allocPost mv cs)).2.ok = true) :
+    ∀ c ∈ cs, c.allocs ≠ [] →
+      (step cfg db (.allocPost mv cs)).1.consByUuid c.uuid = none ∨
+      ∃ row, (step cfg db (.allocPost mv cs)).1.consByUuid c.uuid = some row ∧
+        row.gen = (((db.consByUuid c.uuid).map (·.gen)).getD 0) + 1 :=
+  allocPost_bumps_consumers cfg (ids_of_uniq hU) hU.consUuid hok
+
+example : Uniq exDb ∧ (step exCfg exDb (.allocPost 39 [exPut, { exPut with uuid := 101, gen := none }])).2.ok = true ∧
+    ((step exCfg exDb (.allocPost 39 [exPut, { exPut with uuid := 101, gen := none }])).1.consumers.map
+      (fun c => (c.uuid, c.gen))) = [(100, 4), (101, 1)] :=
+  ⟨exDb_uniq, by decide, by decide⟩
+
+/-- ... and of a successful `POST /reshaper`. -/
+theorem reshape_bumps_consumers (cfg : Config) {db : DB R} (hU : Uniq db) (mv : Nat) (invs : List (RpInvReq R))
+    (cs : List ConsumerReq) (hok : (step cfg db (.reshape mv invs cs)).2.ok = true) :
+    ∀ c ∈ cs, c.allocs ≠ [] →
+      (step cfg db (.reshape mv invs cs)).1.consByUuid c.uuid = none ∨
+      ∃ row, (step cfg db (.reshape mv invs cs)).1.consByUuid c.uuid = some row ∧
+        row.gen = (((db.consByUuid c.uuid).map (·.gen)).getD 0) + 1 :=
+  Placement.Gens.reshape_bumps_consumers cfg (ids_of_uniq hU) hU.consUuid hok
+
+example : Uniq exDb ∧ (step exCfg exDb (.reshape 39 [⟨11, 5, [exInv]⟩] [exPut])).2.ok = true ∧
+    ((step exCfg exDb (.reshape 39 [⟨11, 5, [exInv]⟩] [exPut])).1.consByUuid 100).map (·.gen) = some 4 :=
+  ⟨exDb_uniq, by decide, by decide⟩
 
 end Placement.Props.C10
